@@ -1637,6 +1637,14 @@ class StateEngine(object):
                                 {},
                             )
 
+                            """
+                            Tidy up self.branch_metadata for current execution_arn
+                            (cancel and acknowledge the sibling Branches/Iterations)
+                            before transitioning to the Catcher's Next state.
+                            """
+                            if execution_arn in self.branch_metadata:
+                                self.check_pending_results(execution_arn)
+
                         etype, emessage = self.change_state(
                             state_machine, state_type, catcher.get("Next"), event
                         )
